@@ -50,12 +50,13 @@ def build_datasets(ck):
     variants = [("G4", (4, 4, 4)), ("Gmix", (2, 4, 6)), ("Gedge", (2, 4, 6))]
     if ck.tier == "thorough":
         variants += [("Godd", (1, 3, 2)), ("G2", (2, 2, 2)), ("G4b", (4, 4, 4)), ("Gmixb", (2, 4, 6))]
+    variants += [("Gweak", (4, 4, 2))]       # not part of the rotation: used by the demanding-threshold runs only
     for i, (name, pl) in enumerate(variants):
         d = os.path.join(root, name)
         edge = name == "Gedge"
         man = datasets.make_population(d, seed=ck.seed * 101 + i, ploidies=pl, name=name,
                                        deep_sample=1 if name in ("G4b",) else None,
-                                       plan=datasets.EDGE_PLAN if edge else None,
+                                       plan=datasets.EDGE_PLAN if edge else datasets.WEAK_PLAN if name == "Gweak" else None,
                                        lower=[("CTG1", 95, 130), ("CTG2", 0, 10)] if edge else ())
         man["hap_vcf"] = os.path.join(d, "haps.vcf")
         man["hap_records"] = datasets.write_haplotype_vcf(man, man["hap_vcf"], seed=ck.seed)
@@ -81,7 +82,7 @@ def build_datasets(ck):
         with open(man["pedigree"], "w") as fh:
             fh.write("%s\t.\t.\n%s\t%s\t%s\n%s\t.\t.\n" % (names[0], names[1], names[0], names[2], names[2]))
         tau = {(4, 4, 4): [(2, 2), (2, 2), (2, 2)], (2, 4, 6): [(1, 1), (1, 3), (3, 3)], (1, 3, 2): [(1, 0), (1, 2), (1, 1)],
-               (2, 2, 2): [(1, 1), (1, 1), (1, 1)]}[tuple(pl)]
+               (2, 2, 2): [(1, 1), (1, 1), (1, 1)], (4, 4, 2): [(2, 2), (2, 2), (1, 1)]}[tuple(pl)]
         man["tau_file"] = os.path.join(d, "tau.txt")
         with open(man["tau_file"], "w") as fh:
             for n, (a, b) in zip(names, tau):
@@ -111,7 +112,7 @@ def plan_runs(ck, configs, dsets):
     rnd = random.Random(ck.seed + 7)
     pairs = sorted({(c["prog"], tuple(sorted(c["report"]))) for c in configs})
     rnd.shuffle(pairs)
-    names = sorted(dsets)
+    names = sorted(n for n in dsets if n != "Gweak")
     mcmc = [("300", "100"), ("200", "50"), ("600", "300")]
     runs = []
     reps = 1 if ck.tier == "quick" else 2
@@ -167,6 +168,9 @@ def plan_runs(ck, configs, dsets):
                 if opt % 6 == 5:
                     argv += ["--haplotype-posterior-threshold", "1.0"]
                     r["threshold1"] = True
+                elif opt % 6 == 2:
+                    # a demanding threshold: some called haplotypes stay unreported -> partly unknown genotypes (AN < ploidy sum)
+                    argv += ["--haplotype-posterior-threshold", ["0.9", "0.97", "0.75"][n % 3]]
             else:
                 argv += ["--haplotypes", man["hap_vcf"]]
                 r["hap_vcf"] = man["hap_vcf"]
@@ -201,6 +205,17 @@ def plan_runs(ck, configs, dsets):
         runs.append({"prog": "assemble", "report": rep, "ds": man["name"], "id": "t%04d" % k, "pool": None, "threshold1": True,
                      "snv_vcf": man["snv_vcf"], "ref": man["ref"], "ploidy": {s["name"]: s["ploidy"] for s in man["samples"]},
                      "argv": argv + report_args(rep)})
+    # assemble with a demanding threshold on loci whose second haplotype is called with an intermediate occurrence
+    # probability: called haplotypes stay unreported, genotypes are partly unknown (AN < sum of ploidies, UAN, AC, AFP)
+    man = dsets["Gweak"]
+    wrep = [["AFP", "ACP"], ["AFP"], ["AOP", "ACP", "GP"], ["AOPSUM", "AFP", "GL"]]
+    for k in range(2 if ck.tier == "quick" else 4):
+        argv = ["--bam"] + [s["bam"] for s in man["samples"]] + ["--ploidy", man["ploidy_file"], "--reference", man["ref"],
+                "--mcmc-steps", "400", "--mcmc-burn", "100", "--mcmc-seed", str(3 + k), "--targets", man["bed_run"], "--variants", man["snv_vcf"],
+                "--haplotype-posterior-threshold", ["0.6", "0.8", "0.7", "0.9"][k]]
+        runs.append({"prog": "assemble", "report": wrep[k], "ds": man["name"], "id": "w%04d" % k, "pool": None,
+                     "snv_vcf": man["snv_vcf"], "ref": man["ref"], "ploidy": {s["name"]: s["ploidy"] for s in man["samples"]},
+                     "argv": argv + report_args(wrep[k])})
     # the project-wide ploidy file (lists more samples than are analysed)
     for k, prog in enumerate(["assemble", "call-exact", "call"] if ck.tier == "quick" else ["assemble", "call-exact", "call", "assemble", "call"]):
         man = dsets[names[k % len(names)]]
@@ -331,7 +346,7 @@ def compare_with_model(ck, run, hdr, recs, model_by_key, stats):
 CORRUPTIONS = [
     ("RecountAC", "AC"), ("FormatCard", "GP"), ("GTShape", "GT"), ("RefIsReference", "END"), ("AltsFromSnvs", "ALT"),
     ("RoundedFormat", "GPM"), ("RecountNS", "NS"), ("KeysDeclared", "XX"), ("RecountAFP", "AFP"), ("InfoCard", "ACP"),
-    ("Decimals", "SPM"), ("RecountRCOUNT", "RCOUNT"), ("TypeLexical", "DP"),
+    ("Decimals", "SPM"), ("RecountRCOUNT", "RCOUNT"), ("TypeLexical", "DP"), ("AfpFromSampleAfpText", "AFPTEXT"),
 ]
 
 
@@ -376,6 +391,15 @@ def corrupt(ev, what):
         else:
             v["m"] += 2000
         e["iinfo"] = [x for x in e["iinfo"] if x["k"] != "AFP"]
+    elif what == "AFPTEXT" and "AFP" in info and "AFP" in fi and info["AFP"]["v"][0]["k"] in ("dec", "int") \
+            and all(x[fi["AFP"]][0]["k"] in ("dec", "int") for x in rec["samples"]):
+        v = info["AFP"]["v"][0]
+        if v["k"] == "int":
+            v.update({"k": "dec", "m": v["m"] * 1000000 - 3000, "d": 3})
+        else:
+            v["m"] += 3000
+        e["iinfo"] = [x for x in e["iinfo"] if x["k"] != "AFP"]
+        e["ifmt"] = [[] for _ in rec["samples"]]
     elif what == "ACP" and "ACP" in info and len(info["ACP"]["v"]) > 1:
         info["ACP"]["v"].pop()
         e["iinfo"] = [x for x in e["iinfo"] if x["k"] != "ACP"]
